@@ -3430,7 +3430,16 @@ class Session(_SessionClassMethods, EventTarget):
         cascaded = list(
             state.manager.mapper.cascade_iterator("expunge", state)
         )
-        self._expunge_states([state] + [st_ for o, m, st_, dct_ in cascaded])
+        # the cascade may reach objects that are not (or no longer) part of
+        # this Session; those are not expunged from it
+        self._expunge_states(
+            [state]
+            + [
+                st_
+                for o, m, st_, dct_ in cascaded
+                if st_.session_id == self.hash_key
+            ]
+        )
 
     def _expunge_states(
         self, states: Iterable[InstanceState[Any]], to_transient: bool = False
